@@ -38,7 +38,9 @@ def generate(seed: int, tier: str = "quick") -> dict:
     r_dev = core.stream(seed, "device")
     r_lnk = core.stream(seed, "link")
     r_sch = core.stream(seed, "sched")
-    cfg = common.draw_config(r_cfg, policies=(0, 1))
+    cfg = common.draw_config(r_cfg, policies=(0, 1, 1, 2))
+    if cfg["quitonerror"] == 2:
+        cfg["resume_after_raise"] = True
     pre = core.Counters()
     nmax = 12
     n = r_cfg.choice((0, 1, 2, 3, 4, 5, 6, 8, nmax))
@@ -65,6 +67,8 @@ def generate(seed: int, tier: str = "quick") -> dict:
             tr["kind"] = "tlssocket"
     elif r_sch.random() < 0.2:
         tr = {"kind": "bytesio"}
+    elif r_sch.random() < 0.06:
+        tr = {"kind": "pipe"}
     elif r_sch.random() < 0.12:
         # a serial port that has everything buffered already (pyserial API: read / readline / read_until)
         tr = {"kind": "serial", "segments": [[0.0, wire_len]] if wire_len else [], "timeout": 1.0}
